@@ -181,6 +181,98 @@ func closePair2(ps []kit.V2, tol float64) bool {
 	return closePair(p3, tol)
 }
 
+// colinearOutcomes enumerates the results of EliminateColinear(eps) over all removal orders.  A state is the set
+// of surviving vertices; a vertex is removable when 1-cos of its turning angle is below eps.  The library's value
+// carries an absolute rounding error of a few 1e-16 (<= 1e-3 relative for eps >= 1e-12), so values within 1% of
+// eps are undecidable and end the enumeration, as do zero-length segments, a loop about to drop below three vertices,
+// more than 14 removable vertices at the start and more than min(1500, 3e5/vertices) states.  Returns the set of terminal states
+// (fmt.Sprint of the sorted surviving vertices) or a reason why there is no verdict.
+func colinearOutcomes(ls []loop2, eps float64) (map[string]bool, string) {
+	type state []loop2
+	classify := func(st state) ([][2]int, string) {
+		var el [][2]int
+		for li, l := range st {
+			n := len(l)
+			for i := range l {
+				s, c := turn(l[(i+n-1)%n], l[i], l[(i+1)%n])
+				d := s * s / (1 + c) // = 1-c for unit vectors, without cancellation
+				if c <= 0 {
+					d = 1 - c
+				}
+				switch {
+				case d < eps/1.01:
+					if n <= 3 {
+						return nil, "loop-would-collapse"
+					}
+					el = append(el, [2]int{li, i})
+				case d > eps*1.01:
+				default:
+					return nil, "undecidable(value-near-eps-or-NaN)"
+				}
+			}
+		}
+		return el, ""
+	}
+	key := func(st state) string {
+		var all []kit.V2
+		for _, l := range st {
+			all = append(all, l...)
+		}
+		sortV2(all)
+		return fmt.Sprint(all)
+	}
+	start := state(ls)
+	el0, why := classify(start)
+	if why != "" {
+		return nil, why
+	}
+	if len(el0) > 14 {
+		return nil, "skipped(more-than-14-removable)"
+	}
+	// work bound: states * vertices <= ~3e5
+	nv := 0
+	for _, l := range ls {
+		nv += len(l)
+	}
+	maxStates := 300000 / (nv + 1)
+	if maxStates > 1500 {
+		maxStates = 1500
+	}
+	finals := map[string]bool{}
+	seen := map[string]bool{key(start): true}
+	stack := []state{start}
+	for len(stack) > 0 {
+		st := stack[len(stack)-1]
+		stack = stack[:len(stack)-1]
+		el, why := classify(st)
+		if why != "" {
+			return nil, why
+		}
+		if len(el) == 0 {
+			finals[key(st)] = true
+			continue
+		}
+		for _, e := range el {
+			nx := make(state, len(st))
+			copy(nx, st)
+			l := st[e[0]]
+			nl := make(loop2, 0, len(l)-1)
+			nl = append(nl, l[:e[1]]...)
+			nl = append(nl, l[e[1]+1:]...)
+			nx[e[0]] = nl
+			k := key(nx)
+			if !seen[k] {
+				if len(seen) >= maxStates {
+					return nil, "skipped(too-many-states)"
+				}
+				seen[k] = true
+				stack = append(stack, nx)
+			}
+		}
+	}
+	return finals, ""
+}
+
 func step2(in []kit.Seg, loops0 int, op op2, o *kit.Obs) (out []kit.Seg, stop string, err error) {
 	mesh := m3.MeshFromSegs(in)
 	diag, size := size2(in)
@@ -196,6 +288,14 @@ func step2(in []kit.Seg, loops0 int, op op2, o *kit.Obs) (out []kit.Seg, stop st
 		out = canonSegs(m3.Segs(mesh.Decimate(max)))
 		if err = checkTopo2(out, loops0, what); err != nil {
 			return
+		}
+		// a loop of two vertices is a pair of opposite segments on the same end points (the library's own guard:
+		// "deleting this vertex would create a duplicate segment"): no longer the outline of a region
+		for _, l := range loops2(out) {
+			if len(l) < 3 {
+				err = fmt.Errorf("%s: a loop was reduced to %d vertices", what, len(l))
+				return
+			}
 		}
 		vo := vertSet2(out)
 		for v := range vo {
@@ -215,9 +315,17 @@ func step2(in []kit.Seg, loops0 int, op op2, o *kit.Obs) (out []kit.Seg, stop st
 		// only attainable when it leaves three vertices per loop
 		if max >= 3*loops0 {
 			o.Label("decimate:limit-attainable")
-			if kit.Excluded("decimate2d-small-loop") && loops0 > 1 {
-				kit.CountExcluded("decimate2d-small-loop")
-				return
+			if kit.Excluded("decimate2d-small-loop") && loops0 > 1 && len(vo) > max {
+				// known finding: a removal that is refused because the loop is already a triangle is still
+				// counted as a removal; the class is recognised by a triangle among the output loops
+				// (without one nothing was refused and the limit must hold)
+				for _, l := range loops2(out) {
+					if len(l) == 3 {
+						kit.CountExcluded("decimate2d-small-loop")
+						o.Label("excluded:decimate2d-small-loop")
+						return
+					}
+				}
 			}
 			if len(vo) > max {
 				err = fmt.Errorf("%s: %d vertices remain, documented hard limit for manifold meshes is %d", what, len(vo), max)
@@ -270,6 +378,22 @@ func step2(in []kit.Seg, loops0 int, op op2, o *kit.Obs) (out []kit.Seg, stop st
 		for v := range vo {
 			if !vi[v] {
 				err = fmt.Errorf("%s: output vertex %v is not an input vertex", what, v)
+				return
+			}
+		}
+		// the published procedure (remove any vertex whose segments' normals differ by 1-cos < eps, re-examine its
+		// two neighbours, repeat) leaves the order open; the result must be one of the outcomes some order produces
+		if finals, why := colinearOutcomes(loops2(in), eps); why != "" {
+			o.Label("colinear:outcomes-" + why)
+		} else {
+			o.Labelf("colinear:outcomes-enumerated(%s)", map[bool]string{true: "several", false: "one"}[len(finals) > 1])
+			var left []kit.V2
+			for v := range vo {
+				left = append(left, v)
+			}
+			sortV2(left)
+			if !finals[fmt.Sprint(left)] {
+				err = fmt.Errorf("%s: the %d remaining vertices are not the result of any order of removals by the published rule (%d possible results; %d input vertices)", what, len(left), len(finals), len(vi))
 				return
 			}
 		}
